@@ -147,7 +147,7 @@ func (a *Assembler) Run(ctx context.Context, targetFs fs.FS, parts []UnpackSpec,
 				return
 			}
 			// Yield the cache path.
-			res.Path = config.GetCacheBasePath().Join(cache.ShelfFor(resultWareID))
+			res.Path = config.GetCacheBasePath().Join(cache.ShelfForResult(part.WareID, resultWareID, part.Filters))
 			res.Writable = true
 			// TODO if any error, fan out cancellations
 		}(i, part)
